@@ -51,6 +51,8 @@ EDGE_TEXTS = [
     "0.5x + 0.5y", "0.25a + 0.25b + 3", "(3 + 0.5x) + 0.5y", "0.5 + 0.5y", "0.5x + 0.5", "0.1x + 0.1y^2", "0.5x^2 + 0.5y^3", "0.5x + (0.5y + z)",
     # constant powers outside the real domain / at its edges (numpy answers nan or inf with a warning)
     "-8^0.5 + x", "-8^(1 / 3)", "7y + -3y + -8^0.5", "-2^0.5 * x", "-1^2.5", "0^-1 + x", "0^-0.5", "(2 - 10)^0.5", "-4^0.5 * -4^0.5",
+    # negative bases that fold through numpy, then a subtraction of the folded constant
+    "7 - -2.5^3", "x - -2^-1 * y", "4 - -1.5^2 * x", "y - -0.5^3", "(6 + 9)^30", "(8 + 4)^40 + x", "(4 + 16) * 10^19 * 10^19", "(9 + 9)^20 * x",
     # the same letter in both cases is two different variables
     "2x + 3X", "4p^2 + 3P^2", "x * X", "2x * 3X^2", "(2x + y) + 3X", "2x + 3X = 10", "x + X = 2x", "x / X", "x - X", "X + (x + X)",
     "1.5x + 1.5x", "0.1x + 0.2x", "0.1 + 0.2", "0.1 * 3", "1 / 3", "2 / 3 * 3", "10 * 0.1", "1000000 * 1000000", "99999 * 99999 + 1", "7x + 7x^1", "x^2 + x^2.0",
@@ -64,6 +66,8 @@ BIG_TEXTS = [
     "3 * (1000000007 * x)", "-(4294967296 * 4294967296)", "10^15 + 10^15 + x", "(99999999999x * 99999999999) + 1", "99999999999 * (99999999999 * x)",
     "x - -18446744073709551616", "x + -9223372036854775808", "18446744073709551617 / x", "x * (2^64 + y)", "18446744073709551616x * 3x^2",
     "0.0000001 + 0.0000002", "0.00002 * x * 0.5", "1 / 80000 + x", "x / 0.0000001", "123456789.123456789 - x", "2^-20 + x", "5^-9 * 5^9", "7 / 3 + 2 / 3",
+    # exact integer folds beyond the range of a float (2^1024 ~ 1.8e308)
+    "2^1024", "x + 10^309", "-(3^400 * 3^400)", "2^1023 + 2^1023", "10^400 - 1 + x", "7^500 * 7^500",
     # quotients of large constants with a genuine fractional part, and cancellation after them
     "2469135781 / 2 - 1234567890", "12345678901 / 2 + x", "(10^12 + 1) / 2", "1000000001 / 4 * x", "9007199254740993 / 2", "x + 2469135781 / 2 - 1234567890",
     "(2^40 + 1) / 2^20 - 2^20", "123456789012 / 1000 - 123456789",
